@@ -305,8 +305,14 @@ def rule_memo_key(facts):
                     r.ob(True)
                 why = "identity = address of self.%s : %s" % (".".join(fp), fty)
             else:
-                r.ob(True)
-                why = "identity component is not an address"
+                idroots = pv.of_operand(tup["ops"][1])
+                dep = mirq.roots_mention(idroots, lambda y: isinstance(y, tuple) and y[:2] == ("arg", 1))
+                r.ob(dep)
+                why = "identity component = %s" % fmt_roots(idroots)[:120]
+                if not dep:
+                    r.violations.append(V("MEMO-KEY", b["uname"], "identity does not depend on the parser value",
+                                          "the parser-identity component of the memo key (%s) is not derived from `self`: distinct memoised "
+                                          "parsers of the same type share entries" % fmt_roots(idroots)[:120], *loc(b)))
     if not ok:
         r.errors.append("could not locate the memo key construction in Memoized::go")
     r.explanation = ("the memo key is (cursor_location(start), identity); the identity component must distinguish distinct memoised parsers "
@@ -895,4 +901,128 @@ def rule_merge_arms(facts):
                      % len(want))
     r.nontrivial = len(want)
     r.samples = [{"%s x %s" % k: sorted(v)} for k, v in sorted(seen.items(), key=str)[:4]]
+    return r
+
+
+# ====================================================================== MEMO-WRITERS (who may touch the memo table)
+
+def rule_memo_writers(facts):
+    """The per-parse memo table is handed down by reference and mutated only by Memoized::go; nobody swaps,
+    clears or replaces it (a left-recursion marker must stay visible to re-entrant calls)."""
+    from rules_hooks import has_field
+    r = RuleResult("MEMO-WRITERS")
+    if "memoization" not in facts.features:
+        r.explanation = "memoization feature off"
+        return r
+    allowed = {"combinator::Memoized[Parser]::go"}
+    users = {}
+    for b in facts.bodies:
+        # (a) calls that receive (a reborrow of) InputRef.memos
+        holders = set()
+        for _, bl, s in assigns(b):
+            rv = s["rv"]
+            pl = rv.get("place") if rv["k"] in ("ref", "rawptr", "copyderef") else (mirq.operand_place(rv["op"]) if rv["k"] == "use" else None)
+            if pl is not None and (has_field(pl, "input::InputRef", "memos") or has_field(pl, "input::InputOwn", "memos") or pl["l"] in holders) and not s["place"]["p"]:
+                # copying the reference around is fine; remember who holds it
+                holders.add(s["place"]["l"])
+        for _, bl, t, f in calls(b):
+            for a in t["args"]:
+                pl = mirq.operand_place(a["op"])
+                if pl is not None and pl["l"] in holders and "HashMap" in a["ty"] and a["ty"].startswith("&mut"):
+                    users.setdefault(b["qname"], set()).add(f["name"] if f else "<indirect>")
+        # (b) assignment through the reference:  *self.memos = ..
+        for _, bl, s in assigns(b):
+            pf = mirq.place_fields(s["place"])
+            if (has_field(s["place"], "input::InputRef", "memos") and pf and pf[-1] == "*") or (s["place"]["l"] in holders and pf == ["*"]):
+                users.setdefault(b["qname"], set()).add("assign")
+    for q, ops in sorted(users.items()):
+        ok = q in allowed
+        r.ob(ok)
+        if not ok:
+            b = facts.by_qname[q][0]
+            r.violations.append(V("MEMO-WRITERS", q, "memo table touched outside Memoized::go",
+                                  "%s applies %s to the per-parse memo table: only Memoized::go may read/insert/remove entries (swapping or "
+                                  "clearing the table hides in-progress markers and cached results)" % (q, sorted(ops)), *loc(b)))
+    r.ob("combinator::Memoized[Parser]::go" in users)
+    r.explanation = "the memo table (InputRef.memos) is passed mutably to a callee / assigned through only in %s" % sorted(users)
+    r.nontrivial = len(users)
+    r.samples = [{q: sorted(o)} for q, o in users.items()]
+    return r
+
+
+# ====================================================================== BUILDER-PROV (bounds / flags setters)
+
+def rule_builder_prov(facts):
+    import builder_table as BT
+    r = RuleResult("BUILDER-PROV")
+    comp = {}
+    for b in facts.bodies:
+        if b["kind"] == "Closure" or not re.match(r"^(combinator::(Repeated|SeparatedBy|RepeatedCfg|SeparatedByCfg)|primitive::JustCfg)::\w+$", b["qname"]):
+            continue
+        if b["name"] in ("clone", "fmt", "default"):
+            continue
+        pv = Prov(b)
+        writes = []
+        rets = set(mirq.return_blocks(b))
+        for i, bl, s in assigns(b):
+            if s["place"]["l"] == 1 and s["place"]["p"]:
+                always = not (mirq.reachable(b, 0, avoid={i}) & rets)
+                writes.append("self.%s := %s [%s]" % (".".join(mirq.field_path(s["place"])), fmt_roots(pv.of_rvalue(s["rv"], 0)), "always" if always else "sometimes"))
+        ret = fmt_roots(pv.of_local(0))
+        comp[b["qname"]] = sorted(writes) + ["returns " + ret]
+    n = 0
+    for q, got in sorted(comp.items()):
+        n += 1
+        want = BT.BUILDERS.get(q)
+        ok = want is not None and sorted(want) == sorted(got)
+        r.ob(ok)
+        if not ok:
+            b = facts.by_qname[q][0]
+            r.violations.append(V("BUILDER-PROV", q, "bound / flag setter",
+                                  "%s must set exactly the reviewed fields from its argument, unconditionally (exactly(n) sets both bounds): "
+                                  "computed %s, expected %s" % (q, got, want), *loc(b)))
+    for q in BT.BUILDERS:
+        if q not in comp:
+            r.errors.append("anchor %s: no such builder" % q)
+    r.explanation = ("the %d bound/flag builder methods of Repeated / SeparatedBy / RepeatedCfg / JustCfg write exactly the reviewed fields from "
+                     "their argument on every path (spec/builder_table.py)" % n)
+    r.nontrivial = n
+    r.info = {"computed": comp}
+    r.samples = [{k: v} for k, v in list(comp.items())[:3]]
+    r.require_floor(n, facts, "BUILDER-PROV.builders", "builder methods")
+    return r
+
+
+# ====================================================================== CHAR-PROV (text::Char method bodies)
+
+def rule_char_prov(facts):
+    import builder_table as BT
+    r = RuleResult("CHAR-PROV")
+    comp = {}
+    for b in facts.bodies:
+        if b["kind"] == "Closure" or b.get("impl_trait") != "text::Char":
+            continue
+        if b["name"] in ("is_newline", "is_inline_whitespace", "digit_zero"):
+            continue   # literal tables: rule CHAR-SIB (order-insensitive)
+        import rules_text
+        lits = sorted({"%s:%r" % (k, (chr(v) if isinstance(v, int) else v)) for k, v in rules_text.body_literals(b)})
+        comp[b["qname"]] = sorted(call_prov_of(facts, b) + (["literals %s" % ",".join(lits)] if lits else []))
+    n = 0
+    for q, got in sorted(comp.items()):
+        n += 1
+        want = BT.CHAR_METHODS.get(q)
+        ok = want is not None and sorted(want) == got
+        r.ob(ok)
+        if not ok:
+            b = facts.by_qname[q][0]
+            r.violations.append(V("CHAR-PROV", q, "character classification",
+                                  "%s must perform exactly the reviewed classification calls on the reviewed operands: computed %s, expected %s"
+                                  % (q, got, want), *loc(b)))
+    for q in BT.CHAR_METHODS:
+        if q not in comp:
+            r.errors.append("anchor %s: no such Char method" % q)
+    r.explanation = "%d text::Char method bodies (is_whitespace, is_digit, is_ident_*, to_ascii for char / u8 / &Grapheme) match the reviewed call provenance" % n
+    r.nontrivial = n
+    r.info = {"computed": comp}
+    r.require_floor(n, facts, "CHAR-PROV.methods", "Char method bodies")
     return r
